@@ -4,6 +4,7 @@ import Bluebell.Gen.Grammar
 import Bluebell.Gen.Compiled
 import Bluebell.Exec
 import Bluebell.PreParse
+import Bluebell.Eid
 /-! Request dispatcher for the line-protocol driver (not part of the proof library's trusted
 statements; it only exposes the model's executable definitions). -/
 open Lean
@@ -22,6 +23,24 @@ partial def dumpTree (t : Tree) : String :=
     "(" ++ toString s ++ " " ++ toString e ++ " [" ++ " ".intercalate ts ++ "] [" ++
       " ".intercalate (sorted.map fun (l,i) => l ++ "=" ++ toString i) ++ "]" ++
       String.join (ks.map fun k => " " ++ dumpTree k) ++ ")"
+
+partial def xmlOfJson (j : Json) : Xml :=
+  match j with
+  | .str s => .text s
+  | .arr a =>
+    let tag : String := match (a[0]? : Option Json) with | some (Json.str t) => t | _ => "?"
+    let attrs : List (String × String) := match (a[1]? : Option Json) with
+      | some (Json.obj o) => o.toList.map fun (k, v) => (k, match v with | Json.str s => s | _ => "?")
+      | _ => []
+    let kids : List Xml := match (a[2]? : Option Json) with
+      | some (Json.arr ks) => ks.toList.map xmlOfJson
+      | _ => []
+    .elem tag attrs kids
+  | _ => .text "?"
+
+partial def jsonOfXml : Xml → Json
+  | .text s => .str s
+  | .elem t a ks => .arr #[.str t, Json.mkObj (a.map fun (k, v) => (k, Json.str v)), .arr (ks.map jsonOfXml).toArray]
 
 def grammarOf (name : String) : Grammar :=
   match name with
@@ -46,6 +65,10 @@ def handle (j : Json) : Json :=
   | "pptrace" =>
       let tr := traceLines (normLines (getNat j "n") (getStr j "text").toList) [-1] (-1)
       Json.mkObj [("trace", Json.arr (tr.map fun (k, d, t) => Json.arr #[Json.num (k : Int), Json.num d, Json.num (t.headD (-2))]).toArray)]
+  | "eids" =>
+      let (x, m) := rewriteAll (xmlOfJson (j.getObjValD "tree")) (getStr j "prefix")
+      Json.mkObj [("tree", jsonOfXml x), ("mapping", Json.arr (m.map fun (a, b) => Json.arr #[.str a, .str b]).toArray)]
+  | "cleannum" => Json.mkObj [("out", Json.str (cleanNum (getStr j "num")))]
   | "preparse" => Json.mkObj [("out", Json.str (String.ofList (preParse (getNat j "n") (getStr j "text").toList)))]
   | op => Json.mkObj [("error", Json.str s!"unknown-op: {op}")]
 
